@@ -85,8 +85,20 @@ def err_snapshot(c):
     return repr(c)
 
 
+def _real_sink(m, a, name):
+    """the tokenizer's sink is a tree builder interpreted from MIR (composition), not the recording model"""
+    s_ = deref(a[0])
+    if isinstance(s_, Struct) and s_.ty in ("TreeBuilder", "XmlTreeBuilder"):
+        return m.prog.by_key.get("<%s as TokenSink>::%s" % (s_.ty, name))
+    return None
+
+
 @model("<Sink as TokenSink>::process_token")
 def sink_process_token(m, a, c):
+    f = _real_sink(m, a, "process_token")
+    if f is not None:
+        m.notes["tb_tokens"] = m.notes.get("tb_tokens", 0) + 1
+        return m.run_fn(f, a)
     tok = a[1]
     xml = len(a) < 3
     line = a[2] if not xml else 0
@@ -120,11 +132,17 @@ def sink_process_token(m, a, c):
 
 @model("<Sink as TokenSink>::adjusted_current_node_present_but_not_in_html_namespace")
 def sink_foreign(m, a, c):
+    f = _real_sink(m, a, "adjusted_current_node_present_but_not_in_html_namespace")
+    if f is not None:
+        return m.run_fn(f, a)
     return m.notes["sinkcfg"].foreign
 
 
 @model("<Sink as TokenSink>::end")
 def sink_end(m, a, c):
+    f = _real_sink(m, a, "end")
+    if f is not None:
+        return m.run_fn(f, a)
     return UNIT
 
 
@@ -210,6 +228,10 @@ def load_entities(prog, path):
     for m_ in re.finditer(r'\("((?:[^"\\]|\\.)*)", \((\d+), (\d+)\)\)', txt):
         ent[m_.group(1)] = (int(m_.group(2)), int(m_.group(3)))
     prog.entities = ent
+    gen = os.path.join(os.path.dirname(path), "generated.rs")
+    if os.path.exists(gen):
+        from . import models as _MD
+        _MD.load_static_atoms(gen)
     by = {}
     for k, v in ent.items():
         by.setdefault(len(k), []).append((k, v))
